@@ -168,6 +168,10 @@ func (o *objectGoArrayReflect) _putIdx(idx int, v Value, throw bool) bool {
 
 	rv := o.fieldsValue.Index(idx)
 	err := o.val.runtime.toReflectValue(v, rv, &objectExportCtx{})
+	// the conversion may have run script code (getters) that resized the slice
+	if o.valueCache.get(idx) != cached {
+		cached = nil
+	}
 	if err != nil {
 		if cached != nil {
 			cached.setReflectValue(rv)
